@@ -108,19 +108,43 @@ def reference_inputs(rng, base, min_leaves=3, max_leaves=6, levels=None):
 
 
 # ------------------------------------------------------------------ stage runners
+class StageHang(BaseException):
+    """raised by the watchdog when a stage call does not return"""
+
+
+HANG_LIMIT_S = 90
+
+
+def _on_alarm(signum, frame):
+    raise StageHang()
+
+
 def call_stage(fn, stages, **plan):
     """Run fn() under the given injector plan; wait for every descendant; return
-    dict(ok, error, code_in_message, exit_codes, logs)."""
+    dict(ok, error, code_in_message, exit_codes, logs).  A call that does not return within
+    HANG_LIMIT_S seconds is interrupted by a watchdog (SIGALRM) and reported with etype 'StageHang':
+    a dispatch / drain loop that spins for ever must show up as a finding, not as a stuck check."""
+    import signal
     faults.arm(stages, **plan)
     res = {'ok': True, 'error': None, 'etype': None}
+    old = signal.signal(signal.SIGALRM, _on_alarm)
+    signal.alarm(HANG_LIMIT_S)
     with quiet():
         try:
             res['value'] = fn()
+        except StageHang:
+            res['ok'] = False
+            res['etype'] = 'StageHang'
+            res['error'] = f'StageHang: the call did not return within {HANG_LIMIT_S} s'
+            res['tb'] = ''
         except Exception as e:               # the call site of the stage
             res['ok'] = False
             res['etype'] = type(e).__name__
             res['error'] = f'{type(e).__name__}: {e}'
             res['tb'] = traceback.format_exc()[-1500:]
+        finally:
+            signal.alarm(0)
+            signal.signal(signal.SIGALRM, old)
         import gc
         gc.collect()
     res['exit_codes'] = faults.settle()
@@ -228,6 +252,12 @@ def virtual_case(ctx, stage, make_fn, n, k, world, desc, pending):
     res = call_stage(make_fn(d), [stage], world=world)
     shutil.rmtree(d, ignore_errors=True)
     obs = obs_of_virtual(res, stage, k)
+    if res.get('etype') == 'StageHang':
+        ctx.violation(f'{stage}: the dispatch / drain loop does not return on world {world} (n_processors={n}): every worker '
+                      'terminates in this world, so the call must return or raise',
+                      {'class': 'c14-stage-does-not-return', 'kind': 'virtual', 'stage': stage, 'n_processors': n, 'k': k,
+                       'world': world, 'what': desc['what']})
+        return
     pending.append((stage, n, k, world, obs, res.get('error'), desc['what']))
 
 
